@@ -107,7 +107,9 @@ def fingerprint(units, mask=False):
         if mask == 3:
             sql = b' '.join(sorted(TOKEN_RE.split(sql)))
         for part in (sql, u.out_type_data or b'', (u.out_type_id or b''), u.in_type_data or b'',
-                     (u.in_type_id or b''), repr(u.in_type_args).encode(), repr(u.globals).encode()):
+                     (u.in_type_id or b''),
+                     repr([(a.name, a.required) for a in (u.in_type_args or []) if a is not None]).encode(),
+                     repr(u.globals).encode()):
             if not isinstance(part, (bytes, bytearray)):
                 part = bytes(part) if hasattr(part, '__bytes__') else repr(part).encode()
             h.update(hashlib.sha256(part).digest())
@@ -120,7 +122,7 @@ PARAM_RE = re.compile(rb'\$(\d+)')
 def _diff_parts(units, units2):
     out = []
     for u, v in zip(units, units2):
-        for name in ('sql', 'out_type_data', 'out_type_id', 'in_type_data', 'in_type_id', 'in_type_args', 'globals'):
+        for name in ('sql', 'out_type_data', 'out_type_id', 'in_type_data', 'in_type_id', 'globals'):
             a, b = getattr(u, name), getattr(v, name)
             if name == 'sql':
                 a = DUMMY_RE.sub(rb'\1<N>', a if isinstance(a, (bytes, bytearray)) else b'\0'.join(a or ()))
@@ -162,9 +164,13 @@ def run_case(case):
             viol.append((f'scope:{e[0]}', f'`{text}`: {e[0]} {e[1:]}'))
         # (ii) parameters at the IR->SQL level
         argmap = res.argmap or {}
-        idx = sorted(p.index for p in argmap.values())
+        idx = sorted(p.index for n_, p in argmap.items() if f'__edb_decoded_{n_}_0__' not in argmap)
         by_index: dict = {}
         for name, p in argmap.items():
+            if f'__edb_decoded_{name}_0__' in argmap:
+                # a tuple-typed parameter is decoded into several SQL parameters and takes no
+                # slot of its own (populate_argmap)
+                continue
             by_index.setdefault(p.index, []).append(name)
         dup = {i: n for i, n in by_index.items() if len(n) > 1}
         if dup:
@@ -186,13 +192,17 @@ def run_case(case):
         args = u.in_type_args or []
         n_args = len(args)
         globs = list(u.globals or [])
-        n_slots = n_args + sum(2 if has_present else 1 for _g, has_present in globs)
+        def arg_slots(a):
+            sp = getattr(a, 'sub_params', None)
+            return len(sp[0]) if sp else 1
+        n_arg_slots = sum(arg_slots(a) for a in args if a is not None)
+        n_slots = n_arg_slots + sum(2 if has_present else 1 for _g, has_present in globs)
         if any(a is None for a in args):
             viol.append(('params:hole-in-in_type_args', f'`{text}`: {args}'))
         # every slot the unit declares must be mentioned in the SQL text: PostgreSQL derives the
         # number of parameters of the prepared statement from the text, and the server binds one
         # value per declared slot (tuple parameters are decoded into several: skipped)
-        if not any(getattr(a, 'sub_params', None) for a in args if a is not None):
+        if True:
             unmentioned = sorted(set(range(1, n_slots + 1)) - used)
             if unmentioned:
                 viol.append(('params:declared-slot-not-in-sql',
